@@ -1032,6 +1032,197 @@ def r13_4(ctx):
                 {"mutations": hits})
 
 
+# -- R13.5: the positional capacity -----------------------------------------------------
+
+IF = "pytype/abstract/_interpreter_function.py"
+
+_COUNT_OF = {"positional-params": "positional", "params": "all-params",
+             "kwonly-params": "keyword-only", "posonly": "positional-only"}
+
+
+def _self_sig_seq(expr):
+  """Context-free: self.signature.param_names -> 'positional-params', ..."""
+  d = dotted(expr) or ""
+  parts = d.split(".")
+  if len(parts) == 3 and parts[0] == "self" and parts[1] in ("signature", "pytd_sig"):
+    return {"param_names": "positional-params", "kwonly_params": "kwonly-params",
+            "posonly_params": "posonly", "params": "params"}.get(parts[2])
+  return None
+
+
+def _seq_class(canon, expr, stmt, depth=0):
+  """Which parameters a sequence holds one entry for (count-preserving maps
+  are looked through)."""
+  if depth > 5:
+    return None
+  if isinstance(expr, (ast.ListComp, ast.GeneratorExp)) and \
+      len(expr.generators) == 1 and not expr.generators[0].ifs:
+    return _seq_class(canon, expr.generators[0].iter, stmt, depth + 1)
+  if isinstance(expr, ast.Call) and isinstance(expr.func, ast.Name) and \
+      expr.func.id in ("list", "tuple") and len(expr.args) == 1:
+    return _seq_class(canon, expr.args[0], stmt, depth + 1)
+  if canon is None:
+    return _self_sig_seq(expr)
+  if isinstance(expr, ast.Name):
+    v, d = canon.defs.value(expr.id, stmt)
+    if v is None:
+      return None
+    return _seq_class(canon, v, d, depth + 1)
+  if canon.sig_field(expr, stmt) == "params":
+    return "params"
+  sc = canon.set_class(expr, stmt)
+  return sc if sc in _COUNT_OF else None
+
+
+def _count_class(ctx, binder, canon, expr, stmt, depth=0):
+  """Classifies a number: 'positional' (number of positional parameters),
+  'all-params', 'keyword-only', 'positional-only', or None (not understood)."""
+  if depth > 5:
+    return None
+  if canon is not None and isinstance(expr, ast.Name):
+    v, d = canon.defs.value(expr.id, stmt)
+    if v is None:
+      return None
+    return _count_class(ctx, binder, canon, v, d, depth + 1)
+  if isinstance(expr, ast.Call) and dotted(expr.func) == "len" and \
+      len(expr.args) == 1 and not expr.keywords:
+    return _COUNT_OF.get(_seq_class(canon, expr.args[0], stmt))
+  if isinstance(expr, ast.BinOp) and isinstance(expr.op, ast.Add):
+    l = _count_class(ctx, binder, canon, expr.left, stmt, depth + 1)
+    r = _count_class(ctx, binder, canon, expr.right, stmt, depth + 1)
+    if {l, r} == {"positional", "keyword-only"}:
+      return "all-params"
+    return None
+  f = canon.sig_field(expr, stmt) if canon is not None else (
+      (dotted(expr) or "").split(".")[-1]
+      if (dotted(expr) or "").startswith(("self.signature.", "self.pytd_sig."))
+      else None)
+  if f == "posonly_count":
+    return "positional-only"
+  # self.code.<attr>: the code object's counters (blocks.OrderedCode copies
+  # CPython's co_argcount / co_kwonlyargcount / co_posonlyargcount)
+  d = dotted(expr) or ""
+  if canon is None and d.startswith("self.code.") and d.count(".") == 2:
+    return _code_counter(ctx, d.split(".")[2])
+  # self.<method>(..): the method of the binder's own class, one `return E`
+  if isinstance(expr, ast.Call) and isinstance(expr.func, ast.Attribute) and \
+      dotted(expr.func.value) == "self" and canon is not None:
+    cls = binder.mod.parent.get(canon.fn)
+    if not isinstance(cls, ast.ClassDef):
+      return None
+    meth = binder.mod.methods(cls.name).get(expr.func.attr)
+    if meth is None:
+      return None
+    body = [st for st in meth.body if not (isinstance(st, ast.Expr)
+                                           and isinstance(st.value, ast.Constant))]
+    if len(body) != 1 or not isinstance(body[0], ast.Return) or \
+        body[0].value is None:
+      return None
+    own = _count_class(ctx, binder, None, body[0].value, body[0], depth + 1)
+    # an override in a subclass of the binder's class must agree
+    for rel in {binder.rel, IF}:
+      m = get_module(ctx, rel)
+      for cname, cdef in m.classes.items():
+        if cname == cls.name or not _derives_from(m, cname, cls.name):
+          continue
+        ov = m.methods(cname).get(expr.func.attr)
+        if ov is None:
+          continue
+        b = [st for st in ov.body if not (isinstance(st, ast.Expr)
+                                          and isinstance(st.value, ast.Constant))]
+        other = _count_class(ctx, binder, None, b[0].value, b[0], depth + 1) \
+            if len(b) == 1 and isinstance(b[0], ast.Return) and b[0].value is not None \
+            else None
+        if other != own:
+          raise AnalysisError(
+              f"{cname}.{expr.func.attr} overrides the capacity of "
+              f"{cls.name}.{expr.func.attr} ({other} vs {own})")
+    return own
+  return None
+
+
+BLOCKS = "pytype/blocks/blocks.py"
+_CO_COUNTERS = {"co_argcount": "positional", "co_kwonlyargcount": "keyword-only",
+                "co_posonlyargcount": "positional-only"}
+
+
+def _code_counter(ctx, attr):
+  """What OrderedCode.<attr> counts, from its assignment in OrderedCode.__init__."""
+  mod = get_module(ctx, BLOCKS)
+  init = mod.func("OrderedCode.__init__")
+  vals = [n.value for n in ast.walk(init) if isinstance(n, ast.Assign)
+          and len(n.targets) == 1 and dotted(n.targets[0]) == f"self.{attr}"]
+  if len(vals) != 1:
+    return None
+  v = vals[0]
+  if isinstance(v, ast.Call) and dotted(v.func) == "max" and len(v.args) == 2 and \
+      isinstance(v.args[1], ast.Constant) and v.args[1].value == 0:
+    v = v.args[0]
+  if isinstance(v, ast.Attribute) and isinstance(v.value, ast.Name):
+    return _CO_COUNTERS.get(v.attr)
+  return None
+
+
+def _derives_from(mod, cname, root, seen=()):
+  if cname in seen or cname not in mod.classes:
+    return False
+  for b in mod.classes[cname].bases:
+    bn = (dotted(b) or "").split(".")[-1]
+    if bn == root or _derives_from(mod, bn, root, seen + (cname,)):
+      return True
+  return False
+
+
+@rule("R13.5", "C13", floor=2)
+def r13_5(ctx):
+  """wrong-arg-count compares the number of positional arguments with the
+  number of positional parameters only."""
+  for binder in _binders(ctx):
+    found = []
+    for q, fn in binder.fns:
+      canon = _Canon(binder, q, fn)
+      for r in walk_no_nested(fn):
+        if not (isinstance(r, ast.Raise) and isinstance(r.exc, ast.Call) and
+                (dotted(r.exc.func) or "").split(".")[-1] == "WrongArgCount"):
+          continue
+        hits = []
+        for test, pol in flow.guards(binder.mod.parent, r, stop=fn):
+          holder = binder.mod.enclosing_stmt(test)
+          for c in ast.walk(test):
+            if not (isinstance(c, ast.Compare) and len(c.ops) == 1):
+              continue
+            l, op, rr = c.left, c.ops[0], c.comparators[0]
+            for count, cap, ops in ((l, rr, (ast.Gt, ast.GtE)),
+                                    (rr, l, (ast.Lt, ast.LtE))):
+              if isinstance(op, ops) and isinstance(count, ast.Call) and \
+                  dotted(count.func) == "len" and len(count.args) == 1 and \
+                  canon.posargs_like(count.args[0], holder):
+                hits.append((c, cap, holder, pol))
+        if len(hits) != 1:
+          raise AnalysisError(
+              f"{q}: WrongArgCount is guarded by {len(hits)} comparisons of "
+              "the number of positional arguments; expected one")
+        found.append((q, r, canon) + hits[0])
+    if len(found) != 1:
+      raise AnalysisError(
+          f"{binder.label}: WrongArgCount raised at {len(found)} places")
+    q, r, canon, cmp_, cap, holder, pol = found[0]
+    if not pol:
+      raise AnalysisError(f"{q}: WrongArgCount raised when `{src(cmp_)}` is false")
+    kind = _count_class(ctx, binder, canon, cap, holder)
+    if kind is None:
+      raise AnalysisError(
+          f"{q}: the positional capacity `{src(cap)}` could not be classified")
+    ctx.check(kind == "positional", f"{binder.label}:positional-capacity",
+              binder.rel, cmp_.lineno,
+              f"wrong-arg-count compares len(posargs) with `{src(cap)}`, which "
+              f"counts the {kind} parameters; only the positional parameters "
+              "(signature.param_names) can take positional arguments: with "
+              "keyword-only parameters counted, def f(a, *, k=0) accepts "
+              "f(1, 2) silently",
+              {"comparison": src(cmp_), "capacity": src(cap), "counts": kind})
+
+
 # -- sensitivity suite ------------------------------------------------------------------
 
 VARIANTS = [
@@ -1135,4 +1326,30 @@ VARIANTS = [
      "new": "        # Assume the missing parameter is filled in by *args or **kwargs.\n        arg_dict[p.name] = args.namedargs[p.name] = self.ctx.new_unsolvable(node)"},
     {"name": "twin-pytd-binder-reads-namedargs", "rule": "R13.4", "file": PF, "expect": "silent",
      "old": "    kws = set(args.namedargs)\n", "new": "    kws = set(args.namedargs.keys())\n"},
+    # R13.5
+    {"name": "seeded-C13-m2", "rule": "R13.5", "patch": "seeded/C13-m2/patch.diff", "expect": "fire"},
+    {"name": "interp-capacity-counts-kwonly", "rule": "R13.5", "file": FB, "expect": "fire",
+     "old": "    elif len(posargs) > self.argcount(node):",
+     "new": "    elif len(posargs) > len(sig.param_names) + len(sig.kwonly_params):"},
+    {"name": "argcount-method-counts-kwonly", "rule": "R13.5", "file": FB, "expect": "fire",
+     "old": "  def argcount(self, _: \"cfg.CFGNode\") -> int:\n    return len(self.signature.param_names)",
+     "new": "  def argcount(self, _: \"cfg.CFGNode\") -> int:\n    return len(self.signature.param_names + self.signature.kwonly_params)"},
+    {"name": "pytd-capacity-from-pytd-params", "rule": "R13.5", "file": PF, "expect": "fire",
+     "old": "    num_expected_posargs = len(self.signature.param_names)",
+     "new": "    num_expected_posargs = len(self.pytd_sig.params)"},
+    {"name": "pytd-capacity-is-posonly-count", "rule": "R13.5", "file": PF, "expect": "fire",
+     "old": "    num_expected_posargs = len(self.signature.param_names)",
+     "new": "    num_expected_posargs = self.signature.posonly_count"},
+    {"name": "pytd-capacity-from-helper", "rule": "R13.5", "file": PF, "expect": "error",
+     "old": "    num_expected_posargs = len(self.signature.param_names)",
+     "new": "    num_expected_posargs = self.signature.mandatory_param_count()"},
+    {"name": "twin-pytd-capacity-inlined-and-flipped", "rule": "R13.5", "file": PF, "expect": "silent",
+     "old": "    if len(args.posargs) > num_expected_posargs and not self.pytd_sig.starargs:",
+     "new": "    if not self.pytd_sig.starargs and len(self.signature.param_names) < len(args.posargs):"},
+    {"name": "twin-interp-capacity-inlined", "rule": "R13.5", "file": FB, "expect": "silent",
+     "old": "    elif len(posargs) > self.argcount(node):",
+     "new": "    elif len(posargs) > len(sig.param_names):"},
+    {"name": "twin-pytd-capacity-renamed-via-tuple", "rule": "R13.5", "expect": "silent",
+     "edits": [(PF, "    num_expected_posargs = len(self.signature.param_names)\n    if len(args.posargs) > num_expected_posargs and",
+                "    positional_names = tuple(self.signature.param_names)\n    num_expected_posargs = capacity = len(positional_names)\n    if len(args.posargs) > capacity and")]},
 ]
